@@ -65,14 +65,15 @@ def special(ctx, i):
         trans = [("flip", lambda a: a[::-1]), ("flip_copy", lambda a: np.ascontiguousarray(a[::-1])), ("pad", lambda a: np.pad(a, (3, 1)))]
         mets = ["DSC", "IOU", "RVD"]
     else:
-        n = 34
+        n = 34 if (i // 6) % 2 else 44  # the thick bar's crop (2 voxels margin) holds more than 32^3 voxels
+        a, b = (10, 20) if n == 34 else (6, 34)
         refa = np.zeros((n, n, n), dtype=np.uint8)
         pred = np.zeros_like(refa)
         ax = (i // 2) % 3
-        sl = [slice(10, 20)] * 3
+        sl = [slice(a, b)] * 3
         sl[ax] = slice(None)  # a bar through the whole field of view along one axis
         refa[tuple(sl)] = 1
-        sl2 = [slice(11, 22)] * 3
+        sl2 = [slice(a + 1, b + 2)] * 3
         sl2[ax] = slice(None)
         pred[tuple(sl2)] = 1
         cfg = {"input": "MATCHED_INSTANCE", "matcher": None, "metrics": ["DSC", "IOU", "ASSD"], "global": ["ASSD"]}
